@@ -134,7 +134,10 @@ def ulog_case(ctx, g, rng):
     out = UniformLogRV.rng_fn(gen, a, b, size)
     changed = watch.changed()
     calls = gen.calls
-    ok_calls = len(calls) == 1 and calls[0]["method"] == "uniform" and not calls[0]["args"] and calls[0]["kwargs"] == {"size": size}
+    # one uniform draw per output element, from the given generator: how `size` is spelled (None or () for a scalar) is free
+    want_n = 1 if size is None else int(np.prod(size))
+    ok_calls = (len(calls) == 1 and calls[0]["method"] in ("uniform", "random")
+                and int(np.size(calls[0]["out"])) == want_n)
     u_rec = np.atleast_1d(calls[0]["out"]).ravel() if calls else np.array([])
     out_flat = np.atleast_1d(out).ravel()
     m = ctx.model({"op": "prior.uniformlog", "a": bits(a), "b": bits(b), "xs": [], "us": bits_list(u_rec)})
@@ -145,7 +148,7 @@ def ulog_case(ctx, g, rng):
     if changed:
         why = f"global random state touched: {changed}"
     elif not ok_calls:
-        why = f"expected exactly one uniform(size={size}) on the given generator, got {[(c['method'], c['kwargs']) for c in calls]}"
+        why = f"expected exactly one uniform draw of {want_n} variate(s) on the given generator, got {[(c['method'], c['kwargs']) for c in calls]}"
     elif np.shape(out) != (() if size is None else size):
         why = f"shape {np.shape(out)} for size {size}"
     else:
@@ -208,6 +211,23 @@ def ulog_draw_case(ctx, g, rng):
                           "was computed on a coarse grid", tags=dict(dist="UniformLog", where="draw-grid"))
             return
         devs.append(ks_dev(x, lambda t: (np.log(t) - math.log(a)) / (math.log(b) - math.log(a))))
+    # array-valued bounds (a vector of periods with one declaration): the components are independent draws
+    if g["index"] % 2 == 0:
+        with fast():
+            xv = np.asarray(pm.draw(UniformLog.dist(np.array([a, a, a]), b), draws=400, random_seed=int(rng.integers(0, 2**31))), dtype="f8")
+        ctx.count("ulog:array-valued bounds")
+        if xv.shape == (400, 3):
+            qv = (np.log(xv) - math.log(a)) / (math.log(b) - math.log(a))
+            cc = float(np.corrcoef(qv[:, 0], qv[:, 1])[0, 1])
+            if abs(cc) > 0.5:
+                violate(ctx, rel, g, dict(inp, array_bounds=True), dict(correlation_of_components=cc, first_draw=xv[0].tolist()), None,
+                        "the components of a vector-valued UniformLog are independent draws (its logp treats them as independent); "
+                        "they are (nearly) identical", tags=dict(dist="UniformLog", where="draw-array"))
+                return
+        else:
+            violate(ctx, rel, g, dict(inp, array_bounds=True), dict(shape=list(xv.shape)), None,
+                    "a vector-valued UniformLog draws one value per component", tags=dict(dist="UniformLog", where="draw-array-shape"))
+            return
     eps = dkw_eps(n)
     ctx.evaluated(rel, (a, b), sample=dict(a=a, b=b, n=n, ks=devs, dkw_eps=eps, bounds_given_as=form))
     ctx.count("ulog:pm.draw")
@@ -275,7 +295,22 @@ def fcm_case(ctx, g, rng):
         maxK_model = float((500 * u.km / u.s).to_value(u.Unit(Ku)))
     inp = dict(sigma_K0=s0, K_unit=Ku, P0=P0, P0_unit=P0u, P_unit=Pu, max_K=None if default_cap else maxK, max_K_unit=mKu, mu=mu,
                P=P_vals.tolist(), e=e.tolist())
-    dist = FixedCompanionMass.dist(**kw)
+    s0_decl = s0
+    if g["index"] % 4 == 3:
+        # the documented K_unit argument: sigma_K0 (and max_K) are brought to that unit first
+        K2 = str(rng.choice([v for v in vel if v != Ku]))
+        kw["K_unit"] = u.Unit(K2)
+        s0 = float((s0_decl * u.Unit(Ku)).to_value(u.Unit(K2)))
+        maxK_model = float((maxK_model * u.Unit(Ku)).to_value(u.Unit(K2)))
+        inp["K_unit_argument"] = K2
+        ctx.count("fcm:K_unit argument")
+    try:
+        dist = FixedCompanionMass.dist(**kw)
+    except Exception as e_:   # noqa: BLE001
+        ctx.evaluated(rel, None)
+        violate(ctx, rel, g, inp, f"{type(e_).__name__}: {str(e_)[:160]}", None,
+                "FixedCompanionMass.dist must accept its documented arguments", tags=dict(dist="FixedCompanionMass", where="dist-raises"))
+        return
     k = rng.normal(mu, s0, n)
     with fast():
         f = pytensor.function([Pv, ev, kv], [dist.owner.inputs[-1], dist.owner.inputs[-2], pm.logp(dist, kv)])
@@ -632,6 +667,8 @@ def run_case(ctx, g):
 
 
 def post(ctx):
+    ctx.require("FixedCompanionMass.dist with the K_unit argument", ctx.counters["fcm:K_unit argument"], 3)
+    ctx.require("UniformLog with array-valued bounds", ctx.counters["ulog:array-valued bounds"], 2)
     for form in ("int", "float", "nice float", "numpy int64", "numpy float32"):
         ctx.require(f"UniformLog draws with bounds given as {form}", ctx.counters[f"ulog:bounds given as {form}"], 1)
     c = ctx.counters
